@@ -45,6 +45,45 @@ type World struct {
 	funcsCache map[*ssa.Package][]*ssa.Function
 
 	Notes []string // things the reader of a report should know about how the program was loaded
+
+	// new helper functions (see inline.go) all of whose call sites were expanded in place: their
+	// own bodies are dead code and are not analysed a second time out of context
+	deadHelpers map[types.Object]bool
+}
+
+// markDeadHelpers records the new functions that are no longer referenced after expansion.
+func (w *World) markDeadHelpers(roots []*packages.Package, root string, newKeys map[string]bool) {
+	if len(newKeys) == 0 {
+		return
+	}
+	if w.deadHelpers == nil {
+		w.deadHelpers = map[types.Object]bool{}
+	}
+	used := map[types.Object]bool{}
+	for _, p := range roots {
+		for _, obj := range p.TypesInfo.Uses {
+			if _, ok := obj.(*types.Func); ok {
+				used[obj] = true
+			}
+		}
+	}
+	for _, p := range roots {
+		for i, af := range p.Syntax {
+			if i >= len(p.CompiledGoFiles) {
+				continue
+			}
+			rel, _ := filepath.Rel(root, filepath.Dir(p.CompiledGoFiles[i]))
+			for _, d := range af.Decls {
+				fd, ok := d.(*ast.FuncDecl)
+				if !ok || !newKeys[funcKey(filepath.ToSlash(rel), fd)] {
+					continue
+				}
+				if obj := p.TypesInfo.Defs[fd.Name]; obj != nil && !used[obj] && !ast.IsExported(fd.Name.Name) {
+					w.deadHelpers[obj] = true
+				}
+			}
+		}
+	}
 }
 
 func firstLine(s string) string {
@@ -114,6 +153,9 @@ func loadWorld(repo string, needs int) (*World, error) {
 		return nil, err
 	}
 	w.Roots = roots
+	if overlay != nil {
+		w.markDeadHelpers(roots, abs, newKeys)
+	}
 	packages.Visit(roots, nil, func(p *packages.Package) { w.Pkgs[p.PkgPath] = p })
 	prog, spkgs := ssautil.AllPackages(roots, ssa.InstantiateGenerics)
 	w.Prog = prog
@@ -149,6 +191,9 @@ func loadWorld(repo string, needs int) (*World, error) {
 		}
 		if err != nil {
 			return nil, err
+		}
+		if toverlay != nil {
+			w.markDeadHelpers(troots, abs, newKeys)
 		}
 		packages.Visit(troots, nil, func(p *packages.Package) { w.ToolPkgs[p.PkgPath] = p })
 		tprog, tsp := ssautil.AllPackages(troots, ssa.InstantiateGenerics)
@@ -196,6 +241,9 @@ func (w *World) Funcs(sp *ssa.Package) []*ssa.Function {
 	var add func(f *ssa.Function)
 	add = func(f *ssa.Function) {
 		if f == nil || seen[f] || f.Blocks == nil {
+			return
+		}
+		if o := f.Object(); o != nil && w.deadHelpers[o] {
 			return
 		}
 		seen[f] = true
